@@ -56,7 +56,11 @@ func isXMLName(name string) bool {
 }
 
 // Read parses a package from bytes.
-func Read(data []byte) *Pkg {
+func Read(data []byte) *Pkg { return ReadFiltered(data, nil) }
+
+// ReadFiltered is Read, except that XML parts for which parse(name) is false are kept as
+// bytes only (not parsed, not checked for well-formedness).  parse == nil parses everything.
+func ReadFiltered(data []byte, parse func(name string) bool) *Pkg {
 	p := &Pkg{Parts: map[string][]byte{}, XML: map[string]*Node{}, XMLProbs: map[string][]string{}, Defaults: map[string]string{}, Override: map[string]string{}, Rels: map[string][]Rel{}}
 	zr, err := zip.NewReader(bytes.NewReader(data), int64(len(data)))
 	if err != nil {
@@ -85,7 +89,7 @@ func Read(data []byte) *Pkg {
 		if strings.HasSuffix(name, "/") {
 			continue
 		}
-		if isXMLName(name) {
+		if isXMLName(name) && (parse == nil || parse(name)) {
 			root, probs := ParseXML(b)
 			if len(probs) > 0 {
 				p.XMLProbs[name] = probs
